@@ -50,17 +50,18 @@ func genTabSpec(t int, rich bool, hs int) tabSpec {
 		}
 	}
 	for ni, nm := range names {
-		opts := 3
+		opts := 4
 		if ni > 0 {
 			opts = 2
 		}
-		// the entry's update index is 1 or 2 so that equal log keys occur in different tables
-		switch VerifChoose(opts) {
-		case 1:
-			ts.logs = append(ts.logs, LogRecord{RefName: nm, UpdateIndex: uint64(1 + VerifChoose(2)), Time: uint64(10 + t),
+		// log update indices 1 and 2 so that equal log keys occur in different tables
+		c := VerifChoose(opts)
+		switch c {
+		case 1, 2:
+			ts.logs = append(ts.logs, LogRecord{RefName: nm, UpdateIndex: uint64(c), Time: uint64(10 + t),
 				New: hashWith(hs, VerifU8(), byte(t)), Old: hashWith(hs, 0, 0), Name: "n", Email: "e", Message: "m\n"})
-		case 2:
-			ts.logs = append(ts.logs, LogRecord{RefName: nm, UpdateIndex: uint64(1 + VerifChoose(2))}) // deletion
+		case 3:
+			ts.logs = append(ts.logs, LogRecord{RefName: nm, UpdateIndex: 1}) // deletion
 		}
 	}
 	return ts
@@ -211,10 +212,10 @@ func compactOnce(cfg Config, readers []*Reader, first, last int, exp *LogExpirat
 	return out, buf.Bytes()
 }
 
-func compactionHarness(k int, rich bool, nested bool) {
-	cfg := Config{BlockSize: 256, ExactLogMessage: VerifChoose(2) == 1}
+func compactionHarness(k int, rich bool, nested bool, exactChoices int) {
+	cfg := Config{BlockSize: 256, ExactLogMessage: VerifChoose(exactChoices) == 1, HashID: SHA1ID}
 	hs := 20
-	if VerifChoose(2) == 1 {
+	if VerifChoose(1+VerifTier()) == 1 {
 		cfg.HashID = SHA256ID
 		hs = 32
 	}
@@ -253,14 +254,14 @@ func compactionHarness(k int, rich bool, nested bool) {
 }
 
 // Harness_C07_pairs: compacting any range of a 2-table stack leaves refs and reflogs unchanged.
-// bounds: 2 tables; refs over {a,b}: a in {absent,value,deletion,symref/peeled}, b in {absent,value}; logs: a in {absent,entry,deletion}, b in {absent,entry}, log update index in {1,2}; value bytes symbolic; every range [first,last]; ExactLogMessage x HashID
+// bounds: 2 tables; refs over {a,b}: a in {absent,value,deletion,symref/peeled}, b in {absent,value}; logs: a in {absent,entry@1,entry@2,deletion@1}, b in {absent,entry@1}; value bytes symbolic; every range [first,last]; ExactLogMessage both, HashID sha1 (thorough: sha256 too)
 // covers: done
-func Harness_C07_pairs() { compactionHarness(2, true, false) }
+func Harness_C07_pairs() { compactionHarness(2, true, false, 2) }
 
 // Harness_C07_triples: 3-table stacks (tombstones above and below the compacted range), every range, then a second compaction of every range of the result.
-// bounds: 3 tables over the single name a: ref in {absent,value,deletion,symref/peeled}, log in {absent,entry,deletion} with update index in {1,2}; every range; nested second compaction of every range; ExactLogMessage x HashID
+// bounds: 3 tables over the single name a: ref in {absent,value,deletion,symref/peeled}, log in {absent,entry@1,entry@2,deletion@1}; every range; thorough: nested second compaction of every range of the result, ExactLogMessage, sha256
 // covers: done
-func Harness_C07_triples() { compactionHarness(3, false, true) }
+func Harness_C07_triples() { compactionHarness(3, false, VerifTier() > 0, 1+VerifTier()) }
 
 // ---------- C13 reflog expiry ----------
 
@@ -282,10 +283,10 @@ func specExpire(logs []LogRecord, cfg *LogExpirationConfig) []LogRecord {
 }
 
 // Harness_C13_expiry: CompactAll's rewrite with an expiry configuration drops exactly the expired entries and alters no ref.
-// bounds: 2 tables (thorough 3), each one ref and 1..2 reflog entries for names a,b with symbolic time (0..255) and update index (1..4, symbolic); the three limits Time, MinUpdateIndex, MaxUpdateIndex are arbitrary 64-bit values (0 = unset)
+// bounds: 2 tables (thorough 3), each one ref and 1..2 reflog entries for names a,b with symbolic time (1..255) and distinct concrete update indices 1..2k; the three limits Time, MinUpdateIndex, MaxUpdateIndex are arbitrary 64-bit values (0 = unset)
 // covers: done
 func Harness_C13_expiry() {
-	cfg := Config{BlockSize: 256}
+	cfg := Config{BlockSize: 256, HashID: SHA1ID}
 	k := 2 + VerifTier()
 	var readers []*Reader
 	var allLogs [][]LogRecord
@@ -295,7 +296,7 @@ func Harness_C13_expiry() {
 		ts.refs = append(ts.refs, RefRecord{RefName: "a", UpdateIndex: uint64(t + 1), Value: hashWith(20, byte(t), 1)})
 		n := VerifIntRange(1, 2)
 		for i := 0; i < n; i++ {
-			l := LogRecord{RefName: string([]byte{'a' + byte(i)}), UpdateIndex: 1 + uint64(VerifU8()&3), Time: uint64(VerifU8()),
+			l := LogRecord{RefName: string([]byte{'a' + byte(i)}), UpdateIndex: uint64(2*t + i + 1), Time: uint64(VerifU8()),
 				New: hashWith(20, byte(t), byte(i)), Old: hashWith(20, 0, 0), Message: "m\n"}
 			VerifAssume(l.Time != 0) // a non-deletion entry (time 0 with empty fields would be a deletion)
 			ts.logs = append(ts.logs, l)
